@@ -181,6 +181,7 @@ pub fn profile() -> Profile {
     p.p_mut = 12;
     p.max_txs = 5;
     p.lead_blocks = 8;
+    p.prefer_stake_change = true;
     p
 }
 
